@@ -75,12 +75,16 @@ def run_save(table, config, opts, rollup):
     try:
         stream = PandasStream(pipe_exec.frame(table))
         results = list(stream.run(Config(pipe_exec.config_dict(config, "iso"))))
-        store = PandasStore(results)
+        ax = opts["axes"]
+        axes_arg = None
+        if "".join(ax["t"]) != "time" or "".join(ax["z"]) != "z":
+            axes_arg = {"t": "".join(ax["t"]), "z": "".join(ax["z"]), "y": "".join(ax["y"]), "x": "".join(ax["x"])}
+        store = PandasStore(results, axes_arg) if axes_arg else PandasStore(results)
         if rollup:
             store.compute_aggregate(name="rollup")
         df = store.save(write_data=opts["write_data"], write_axes=opts["write_axes"],
                         include=conc(opts["include"]), exclude=conc(opts["exclude"]))
-        cols = project_frame(df, {"time", "z", "lat", "lon"}, set(table["data"]) if opts["write_data"] else set())
+        cols = project_frame(df, {"".join(ax[k]) for k in ("t", "z", "y", "x")}, set(table["data"]) if opts["write_data"] else set())
         e["nrows"] = len(df)
         if rollup:
             rc = [c for c in cols if "".join(c["name"]).endswith("rollup")]
@@ -110,7 +114,7 @@ def check(ctx):
     # runs: two streams, two contexts, all write flag combinations, include / exclude lists
     pairs = [(a, b) for a in IDS for b in IDS if a != b]
     r.shuffle(pairs)
-    pairs = [("a.b", "a_b"), ("a_b", "a.b")] + pairs        # the colliding ids are always exercised
+    pairs = [("a.b", "a_b"), ("a_b", "a.b"), ("a", "a_b"), ("a_b", "a")] + pairs   # colliding ids; one id a prefix of the other
     item_sets = lambda s1, s2: [[], [{"kind": "stream", "v": s1}], [{"kind": "test", "v": "spike"}],  # noqa: E731
                                 [{"kind": "func", "v": "gross"}, {"kind": "stream", "v": s2}],
                                 [{"kind": "func", "v": "spike"}], [{"kind": "stream", "v": "zzz"}],
@@ -144,9 +148,13 @@ def check(ctx):
             cfg = [{"win": [NA, cut], "entries": [G(s1), G(s2)]}]
         its = item_sets(s1, s2)
         inc_given, exc_given = r.random() < 0.4, r.random() < 0.4
-        opts = {"write_data": r.random() < 0.5, "write_axes": r.random() < 0.6,
-                "include": {"given": inc_given, "items": r.choice(its) if inc_given else []},
-                "exclude": {"given": exc_given, "items": r.choice(its) if exc_given else []}}
+        if k in (2, 3):
+            inc_given, exc_given = (k == 2), (k == 3)      # filter by the shorter id only
+        axes = ({"t": chars("time"), "z": chars("z"), "y": chars("lat"), "x": chars("lon")} if r.random() < 0.6 else
+                {"t": chars("obs_time"), "z": chars("depth"), "y": chars("y"), "x": chars("x")})
+        opts = {"write_data": r.random() < 0.5, "write_axes": r.random() < 0.6, "axes": axes,
+                "include": {"given": inc_given, "items": (its[1] if k == 2 else r.choice(its)) if inc_given else []},
+                "exclude": {"given": exc_given, "items": (its[1] if k == 3 else r.choice(its)) if exc_given else []}}
         add(run_save(tb, cfg, opts, rollup=(not inc_given and not exc_given and r.random() < 0.5)))
         k += 1
     # cf_safe_name on every string of length 1..3 (quick) / 1..4 over a class-covering alphabet
